@@ -1012,9 +1012,16 @@ class PolarsModel(data_algebra.data_model.DataModel):
             if isinstance(res, pl.LazyFrame):
                 res = res.collect()
             if res.shape[0] <= 0:
-                # make an all None frame
+                # make a one row frame: a count over no rows is 0, everything else is missing
+                counting_columns = set(
+                    [
+                        k
+                        for k, opk in op.ops.items()
+                        if opk.op in ["_size", "size", "_count", "count", "nunique"]
+                    ]
+                )
                 res = pl.DataFrame(
-                    {c: [None] for c in res.columns},
+                    {c: [0 if c in counting_columns else None] for c in res.columns},
                     schema=[
                         (res.columns[j], res.dtypes[j]) for j in range(res.shape[1])
                     ],
